@@ -13,12 +13,12 @@ import itertools
 import numpy as np
 
 META = dict(
-    engines=["product"],
+    engines=["product", "bfs"],
     technique="exhaustive enumeration of scan parameters (start/end/gpts/sampling/endpoint/constructors/mutators) and probe positions; closed-form reference",
     text="Every combination of start, end, gpts 1-5 or three samplings, and all endpoint settings for LineScan and GridScan, plus fractional, "
          "at_position, add_margin and match_probe variants, is checked position by position against start + i*sampling*direction, the end-point "
          "rule and the axis metadata; probes on 4 grids are built at 9 positions (whole pixels, half pixels, generic, outside the cell) and "
-         "compared with the rolled / Fourier-shifted origin probe.",
+         "compared with the rolled / Fourier-shifted origin probe. A breadth-first search over edit / request histories (12 events, length 3 quick / 4 thorough) on one live GridScan or LineScan requires the same geometry from the parameters read back after every event, the last assigned values to read back, and the positions to equal those of a fresh scan.",
     note="Bound: gpts <= 5 per axis, the value alphabets. Positions are float32 in abTEM: tolerance 2e-6 of the scan extent. Degenerate scans "
          "(gpts = 1 with endpoint) are reported as observations.",
 )
@@ -49,7 +49,125 @@ def check(ctx):
         cases.append({"kind": "at_position", "angle": ang, "gpts": n, "endpoint": ep})
     for g in range(4):
         cases.append({"kind": "probe", "g": g})
+    depth = 2 if ctx.quick else 3
+    hcases = [{"cls": cls, "endpoint": ep, "first": ev, "depth": depth} for cls in ("grid", "line") for ep in ((False, True, [True, False]) if cls == "grid" else (False, True))
+              for ev in HIST_EVENTS]
+    ctx.run(hcases, "run_history", space="edit-histories", batch=2,
+            rule="BFS over every sequence of 12 events (assign start/end/gpts/sampling to two values each, read positions / axes / shape, copy) of length <= 1 + depth on one live GridScan / LineScan, per (class, endpoint, first event)")
     ctx.run(cases, "run_case", rule="one case per scan construction; all positions checked; probe: 9 positions per grid; non-trivial = more than one position")
+
+
+HIST_EVENTS = ["start=A", "start=B", "end=A", "end=B", "gpts=A", "gpts=B", "sampling=A", "sampling=B", "positions", "axes", "shape", "copy"]
+_HV = {"start=A": (0.0, 0.0), "start=B": (1.5, -2.0), "end=A": (2.0, 2.0), "end=B": (4.0, 1.0)}
+
+
+def run_history(c):
+    """Explicit-state BFS over edit/request histories of ONE live scan object: after every event the object must have the geometry
+    its CURRENT parameters describe (the same oracle as the single-construction cases, evaluated from the parameters read back),
+    the last assigned start / end / gpts must read back, and the positions must equal those of a fresh scan built from them."""
+    import abtem
+    from mc.bfs import bfs
+
+    grid = c["cls"] == "grid"
+    ep = tuple(c["endpoint"]) if isinstance(c["endpoint"], list) else c["endpoint"]
+    gv = {"gpts=A": (4, 2) if grid else 4, "gpts=B": 3, "sampling=A": 0.5, "sampling=B": (0.5, 0.7) if grid else 0.7}
+
+    def make(start, end, gpts):
+        cls = abtem.GridScan if grid else abtem.LineScan
+        return cls(start=start, end=end, gpts=gpts, endpoint=ep)
+
+    def fresh():
+        return {"sc": make((0.0, 0.0), (2.0, 2.0), (2, 3) if grid else 3), "m": {"start": (0.0, 0.0), "end": (2.0, 2.0), "gpts": (2, 3) if grid else 3}, "hist": []}
+
+    def apply(s, ev):
+        sc, m = s["sc"], s["m"]
+        s["hist"].append(ev)
+        try:
+            if ev.startswith("start") or ev.startswith("end"):
+                name = ev.split("=")[0]
+                setattr(sc, name, _HV[ev])
+                m[name] = _HV[ev]
+            elif ev.startswith("gpts"):
+                sc.gpts = gv[ev]
+                m["gpts"] = gv[ev] if not grid or isinstance(gv[ev], tuple) else (gv[ev], gv[ev])
+            elif ev.startswith("sampling"):
+                sc.sampling = gv[ev]
+                m["gpts"] = None  # decided by the library; the geometry oracle still applies
+            elif ev == "positions":
+                sc.get_positions()
+            elif ev == "axes":
+                [a.coordinates(n) for a, n in zip(sc.ensemble_axes_metadata, sc.shape)]
+            elif ev == "shape":
+                sc.shape, len(sc)
+            elif ev == "copy":
+                s["sc"] = sc.copy()
+            return "ok"
+        except Exception as e:  # noqa: BLE001
+            return "raises:" + type(e).__name__
+
+    def enabled(s):
+        return HIST_EVENTS
+
+    def canon(s):
+        return tuple(s["hist"])
+
+    def check(s, hist, ev, info, pre):
+        out = []
+        if info != "ok":
+            out.append(("history/raises", "event %s after %s: %s (%s)" % (ev, list(hist), info, c)))
+            return out
+        sc, m = s["sc"], s["m"]
+        where = "after %s" % (list(hist) + [ev])
+        start, end = np.array(sc.start, float), np.array(sc.end, float)
+        if tuple(start) != tuple(m["start"]) or tuple(end) != tuple(m["end"]):
+            out.append(("history/start-end-readback", "%s: start/end read back %r/%r, last assigned %r/%r (%s)" % (where, tuple(start), tuple(end), m["start"], m["end"], c)))
+            return out
+        gp = tuple(sc.gpts) if grid else (sc.gpts,)
+        # (a later start / end / sampling assignment may legitimately re-derive gpts: only the assignment itself is checked)
+        if ev.startswith("gpts") and gp != (tuple(m["gpts"]) if grid else (m["gpts"],)):
+            out.append(("history/gpts-readback", "%s: gpts read back %r, last assigned %r (%s)" % (where, gp, m["gpts"], c)))
+            return out
+        pos = np.asarray(sc.get_positions(), float)
+        tol = 2e-6 * (float(np.abs(end - start).max()) + float(np.abs(np.concatenate([start, end])).max()) + 1.0)
+        ref = np.asarray(make(tuple(start), tuple(end), gp if grid else gp[0]).get_positions(), float)
+        if pos.shape != ref.shape or np.abs(pos - ref).max() > tol:
+            out.append(("history/positions-vs-fresh", "%s: positions differ from a fresh scan with the same start/end/gpts (%s)" % (where, c)))
+            return out
+        eps = sc.endpoint if grid else (sc.endpoint,)
+        samp = np.atleast_1d(np.array(sc.sampling, float))
+        if grid:
+            for i in range(2):
+                n = gp[i]
+                step = (end[i] - start[i]) / (n - 1 if eps[i] and n > 1 else n)
+                want = start[i] + np.arange(n) * step
+                got = pos[:, 0, 0] if i == 0 else pos[0, :, 1]
+                if np.abs(got - want).max() > tol or (n > 1 and abs(samp[i] - step) > 1e-6 * abs(step)):
+                    out.append(("history/geometry", "%s: axis %d positions %r / sampling %r, parameters say %r / %r (%s)" % (where, i, got.round(5).tolist(), samp[i], want.round(5).tolist(), step, c)))
+                ax = sc.ensemble_axes_metadata[i]
+                co = np.asarray(ax.coordinates(n), float)
+                if np.abs(co - got).max() > tol:
+                    out.append(("history/axis-metadata", "%s: axis %d coordinates %r vs positions %r (%s)" % (where, i, co.tolist(), got.tolist(), c)))
+        else:
+            n = gp[0]
+            ext = float(np.linalg.norm(end - start))
+            d = (end - start) / ext
+            step = ext / (n - 1 if eps[0] and n > 1 else n)
+            want = start[None] + np.arange(n)[:, None] * step * d[None]
+            if np.abs(pos - want).max() > tol or (n > 1 and abs(samp[0] - step) > 1e-6 * abs(step)):
+                out.append(("history/geometry", "%s: positions %r / sampling %r, parameters say %r / %r (%s)" % (where, pos.round(5).tolist(), samp[0], want.round(5).tolist(), step, c)))
+            co = np.asarray(sc.ensemble_axes_metadata[0].coordinates(n), float)
+            dist = np.linalg.norm(pos - pos[0], axis=1)
+            if np.abs((co - co[0]) - dist).max() > tol:
+                out.append(("history/axis-metadata", "%s: axis coordinates %r vs distances %r (%s)" % (where, co.tolist(), dist.tolist(), c)))
+        return out
+
+    res = bfs(fresh, apply, enabled, canon, check, c["depth"], prefix=(c["first"],))
+    viol, seen = [], set()
+    for key, msg, hist in res["violations"]:
+        if key not in seen:
+            seen.add(key)
+            viol.append({"key": key, "msg": msg})
+    return {"viol": viol, "obs": "%d histories %s" % (len(res["states"]), sorted(res["infos"].items())), "st": len(res["states"]), "tr": res["transitions"], "ref": res["transitions"]}
 
 
 def _potential():
